@@ -233,3 +233,20 @@ func forall(lo, hi int, f func(int) bool) bool {
 //@   nosafety
 //@   ensures called(Every) && called(Set)
 //@   order evaluateClusterStatus after Every
+
+// ---- redistribution on deploy (C06). Every deploy computes, with AssignRanges, which of the
+// checkpointed operator checkpoints overlap each new operator's key-group range, and operator i
+// is deployed with exactly those (operator checkpoints are recorded in acknowledgement order,
+// not in range order: position i of the checkpoint says nothing about operator i).
+//@ func ext:snapshotpb.JobCheckpoint.GetOperatorCheckpoints
+//@   trusted
+//@   pure
+//@   modifies nothing
+//@ func Assembly.Deploy
+//@   property C06 C15
+//@   nosafety
+//@   ensures called(AssignRanges)
+//@ func Assembly.Deploy$2
+//@   property C06 C15
+//@   nosafety
+//@   atcall Deploy: same(arg1.Checkpoints, sliceu.Pick(ckpt.GetOperatorCheckpoints(), opCkptAssignments[i])) && same(arg1.Operators, opIdentities) && same(arg1.SourceRunnerIds, srIDs)
